@@ -345,6 +345,15 @@ class WritableVersion(dns.zone.WritableVersion):
                 self.delegations.add(name)
                 self.update_glue_flag(name, True)
         node.replace_rdataset(rdataset)
+        if (
+            name in self.delegations  # pyright: ignore
+            and node.get_rdataset(self.zone.rdclass, dns.rdatatype.NS) is None
+        ):
+            # Storing a CNAME removes the other data at the node, including the
+            # NS rdataset, so the name is no longer a delegation point.
+            node.flags &= ~NodeFlags.DELEGATION  # type: ignore
+            self.delegations.discard(name)  # pyright: ignore
+            self.update_glue_flag(name, False)
 
     def delete_rdataset(
         self,
